@@ -83,7 +83,7 @@ class SpartanProtocol(BaseGopherProtocol):
     def renderobjinfo(self, entry):
         if re.match("(/|)URL:", entry.getselector()):
             # It's a plain URL.  Make it that.
-            url = re.match("(/|)URL:(.+)$", entry.getselector()).group(2)
+            url = re.match("(/|)URL:(.*)$", entry.getselector(), re.S).group(2)
         elif (not entry.gethost()) and (not entry.getport()):
             # It's a link to our own server.  Make it as such.  (relative)
             selector = entry.getselector().encode(errors="surrogateescape")
